@@ -42,7 +42,7 @@ def longn(name, full, last, wf=False, **kw):
 
 def reqnew(name, N, wf, **kw):
     d = dict(name=name, harness="C36_query_build.c", entry="harness_request_new", sources=["evutil.c", "strlcpy.c"],
-             defines=["C36_N=%d" % N, "C36_LITERAL_ALLOC"] + (["C36_ONLY_WELLFORMED"] if wf else []), unwind=N + 4, timeout=600, mem_gb=6,
+             defines=["C36_N=%d" % N, "C36_LITERAL_ALLOC"] + (["C36_ONLY_WELLFORMED"] if wf else []), unwind=N + 4, timeout=900, mem_gb=10,
              desc="request_new on a constructed evdns_base, every %sname <= %d bytes, symbolic randomize_case/random bits/EDNS/issue-now: query == requested name ignoring case, id, type, class IN" % ("encodable " if wf else "", N))
     d.update(kw); return d
 
